@@ -152,7 +152,42 @@ func newBystanders() *c17Bystanders {
 
 var c17BystanderNames = []string{"an Init()-only Condition", "an unrelated Condition", "an unrelated Stack"}
 
+// c17Canaries: live instances of every alias form are still recognised for what they are, whatever
+// hollow values (zero, freed, nil pointers) of the same types the library was shown before.
+func c17Canaries() string {
+	sa, ss := StackAlias(stackage.And().Push("live")), StackAliasS(stackage.Or().Push("live"))
+	ca, cs := CondAlias(stackage.Cond("k", stackage.Eq, "v")), CondAliasS(stackage.Cond("k", stackage.Ne, "w"))
+	ns, nc := stackage.List().Push("n"), stackage.Cond("k", stackage.Ge, 1)
+	var bad []string
+	for _, x := range []struct {
+		n string
+		v any
+		s bool
+	}{{"StackAlias", sa, true}, {"*StackAlias", &sa, true}, {"StackAliasS", ss, true}, {"*StackAliasS", &ss, true}, {"*Stack", &ns, true},
+		{"CondAlias", ca, false}, {"*CondAlias", &ca, false}, {"CondAliasS", cs, false}, {"*CondAliasS", &cs, false}, {"*Condition", &nc, false}} {
+		if x.s {
+			if _, ok := stackage.ConvertStack(x.v); !ok {
+				bad = append(bad, "ConvertStack(live "+x.n+") = false")
+			}
+			if !stackage.And().Push(x.v).IsNesting() {
+				bad = append(bad, "a Stack holding a live "+x.n+" is not nesting")
+			}
+		} else {
+			if _, ok := stackage.ConvertCondition(x.v); !ok {
+				bad = append(bad, "ConvertCondition(live "+x.n+") = false")
+			}
+			if str := stackage.And().Push("a", x.v).String(); strings.Contains(str, "UNKNOWN") || !strings.Contains(str, "k") {
+				bad = append(bad, "a Stack holding a live "+x.n+" renders "+str)
+			}
+		}
+	}
+	return strings.Join(bad, "; ")
+}
+
 func (b *c17Bystanders) check(c *Ctx, cs c17Case, desc string) {
+	if msg := c17Canaries(); msg != "" {
+		c.Violation("live-instances-no-longer-recognised:"+cs.Recv+"."+cs.Method, fmt.Sprintf("after %s: %s", desc, msg), cs, len(desc))
+	}
 	for i, v := range b.vals {
 		if after := observe(v, false); after != b.before[i] {
 			c.Violation("bystander-changed:"+cs.Recv+"."+cs.Method, fmt.Sprintf("%s changed what %s (never passed to the call) answers:\n before %s\n after  %s", desc, c17BystanderNames[i], b.before[i], after), cs, len(desc))
@@ -353,6 +388,9 @@ func c17Funcs(c *Ctx) int {
 					}
 				}
 			}
+			if msg := c17Canaries(); msg != "" {
+				c.Violation("live-instances-no-longer-recognised:func:"+name, fmt.Sprintf("after %s(%s): %s", name, t.Desc, msg), c17Case{"func", "", name, t.Desc}, len(t.Desc))
+			}
 			c.Nontrivial(name + t.Desc)
 		}
 	}
@@ -543,14 +581,14 @@ func init() {
 			}
 		}
 		diff := &c17Diff{res: map[string]map[string]string{}}
-		parallelFor(len(jobs), func(i int) { c17Run(c, jobs[i].cs, jobs[i].args, diff, true) })
 		nb := 0
-		for i := range jobs { // one call at a time, each watched by bystander instances
+		for i := range jobs { // one call at a time, each watched by bystander instances and canaries; before the parallel pass, so that whatever a call leaves behind in the package is blamed on that call
 			if c17WantsBystanders(jobs[i].cs) {
 				nb++
 				c17Run(c, jobs[i].cs, jobs[i].args, nil, false)
 			}
 		}
+		parallelFor(len(jobs), func(i int) { c17Run(c, jobs[i].cs, jobs[i].args, diff, true) })
 		c.Bound["calls_watched_by_bystanders"] = nb
 		// differential: zero-valued and freed instances answer identically
 		for k, m := range diff.res {
